@@ -463,6 +463,49 @@ def ref_step(uni, ref, d):
         ref.branch(d["s"])
 
 
+class FaultInjector:
+    """C17: makes the j-th solver check of the armed call give up (what z3_solver_sat raises on a timeout)"""
+
+    def __init__(self):
+        self.at, self.idx, self.fired, self.saved = None, 0, False, None
+
+    def arm(self, j):
+        self.at, self.idx, self.fired = j, 0, False
+
+    def install(self):
+        import claripy.backends.backend_z3 as bz
+        self.saved = bz.z3_solver_sat
+        inj = self
+
+        def z3_solver_sat(solver, extra_constraints, occasion):
+            k = inj.idx
+            inj.idx += 1
+            if inj.at is not None and k == inj.at:
+                inj.fired = True
+                from claripy.errors import ClaripySolverInterruptError
+                raise ClaripySolverInterruptError("timeout")
+            return inj.saved(solver, extra_constraints, occasion)
+        bz.z3_solver_sat = z3_solver_sat
+
+    def remove(self):
+        import claripy.backends.backend_z3 as bz
+        bz.z3_solver_sat = self.saved
+
+
+def judge_fault(d, outcome, fired):
+    """C17, first half: a call during which the backend gave up must raise a claripy error"""
+    if not fired:
+        return "not-fired"
+    if outcome[0] == "err":
+        import claripy.errors as ce
+        if isinstance(getattr(ce, outcome[1], None), type) and issubclass(getattr(ce, outcome[1]), ce.ClaripyError):
+            return None
+        return ("non-claripy-error", "the backend gave up during %s and %s was raised: %s" % (d["op"], outcome[1], outcome[2]))
+    if outcome[0] == "unsat":
+        return ("unsat-after-giveup", "the backend gave up during %s and UnsatError was raised (an answer, not an error report)" % d["op"])
+    return ("answer-after-giveup", "the backend gave up during %s but the call returned %r" % (d["op"], outcome[1]))
+
+
 def run_history(uni, cls, cfg, hist, on_step=None):
     """Run on the real code with the per-answer oracle.  Returns (failures, outcomes);
     failures = [(index, kind, explanation)].  History entries that reference a missing solver are skipped."""
@@ -470,6 +513,7 @@ def run_history(uni, cls, cfg, hist, on_step=None):
     bz = claripy.backends.z3
     saved = bz.reuse_z3_solver
     bz.reuse_z3_solver = bool(cfg.get("reuse", False))
+    inj = None
     try:
         if hasattr(bz._tls, "solver"):
             bz._tls.solver = None
@@ -479,11 +523,25 @@ def run_history(uni, cls, cfg, hist, on_step=None):
         solvers = [SOLVER_CLASSES[cls](**kw)]
         ref = Ref(uni)
         fails, outs = [], []
+        if any(d.get("fault") is not None for d in hist):
+            inj = FaultInjector()
+            inj.install()
         for k, d in enumerate(hist):
             if d["s"] >= len(solvers):
                 outs.append(("skip",))
                 continue
+            if inj:
+                inj.arm(d.get("fault"))
             out = apply_op(uni, solvers, d)
+            if inj and d.get("fault") is not None:
+                jf = judge_fault(d, out, inj.fired)
+                if jf != "not-fired":
+                    outs.append(out)
+                    if d["op"] == "add":
+                        ref.add(d["s"], [uni.parse(c) for c in d["cs"]])
+                    if jf:
+                        fails.append((k, jf[0], jf[1]))
+                    continue
             if d["op"] == "add":
                 ref.add(d["s"], [uni.parse(c) for c in d["cs"]])
             elif d["op"] == "branch" and out[0] == "ok":
@@ -496,6 +554,8 @@ def run_history(uni, cls, cfg, hist, on_step=None):
                 on_step(k, d, out, solvers, ref)
         return fails, outs
     finally:
+        if inj:
+            inj.remove()
         bz.reuse_z3_solver = saved
         if hasattr(bz._tls, "solver"):
             bz._tls.solver = None
@@ -586,6 +646,10 @@ def signature(prop, cls, cfg, hist, idx, kind):
     for p in ("eval", "batch_eval", "min", "max", "solution", "simplify", "branch", "downsize"):
         if p in prior:
             preds.append("after-" + p)
+    for q in hist[:idx + 1]:
+        if q.get("fault") is not None and (q["s"] == d["s"] or True):
+            preds.append("giveup-in-" + q["op"])
+            break
     if cfg.get("track"):
         preds.append("track")
     if cfg.get("reuse"):
